@@ -131,6 +131,9 @@ TrStatsEnd ==
   /\ EndGuards
   \* C12: Ok only with positive degrees of freedom, a successful fit and no model failure
   /\ G({"C12", "C09"}, Ev.sok => (Ev.N > Ev.M + np /\ Ev.ok /\ ~statFault /\ ~seenNone))
+  \* the defining identities of the statistics hold for what was reported (digested by the harness):
+  \* weighted residuals = final residuals, chi2 (N-M-P) = |r_w|^2, sigma^2 = chi2
+  /\ G({"C12"}, Ev.sok => Ev.identity)
   \* statistics are only attempted after a successful fit
   /\ G({"C12"}, phase = "stats" => Ev.ok)
 
